@@ -56,8 +56,12 @@ func c14Scenario(c c14Cfg) *mc.Scenario {
 			err     error
 			call    int
 			ret     int
+			thread  string
+			obs     []byte // the record this attempt observed (nil: none)
+			hasObs  bool
 		}
 		var attempts []attempt
+		observed := map[string][]byte{} // thread -> the record bytes its last acquire-or-renew step observed
 		vrt.BeginExplore()
 		var ths []*vrt.Thread
 		for i := 0; i < c.candidates; i++ {
@@ -68,7 +72,14 @@ func c14Scenario(c c14Cfg) *mc.Scenario {
 				for r := 0; r < c.rounds; r++ {
 					rec := resourcelock.LeaderElectionRecord{HolderIdentity: id, LeaseDurationSeconds: 8, LeaderTransitions: r}
 					_, gerr := rl.Get()
-					a := attempt{cand: i, call: vrt.Steps()}
+					// what this candidate has now read (client-go acts on exactly this observation)
+					if v, ok := d.LastGet[vrt.CurName()+"|"+electionKey]; ok && gerr == nil {
+						observed[vrt.CurName()] = v
+					} else {
+						delete(observed, vrt.CurName())
+					}
+					a := attempt{cand: i, call: vrt.Steps(), thread: vrt.CurName()}
+					a.obs, a.hasObs = observed[vrt.CurName()]
 					switch {
 					case gerr != nil && apierrors.IsNotFound(gerr):
 						a.verb = "create"
@@ -125,6 +136,13 @@ func c14Scenario(c c14Cfg) *mc.Scenario {
 				case "cas":
 					if !bytes.Equal(cur, o.Old) {
 						x.Fail("C14|update-on-changed-record|"+c.engine, "thread %s updated the lock record conditioned on %s, but the stored record was %s", b.Thread, o.Old, cur)
+					}
+					for _, a := range attempts {
+						if a.thread == b.Thread && b.CommitStep >= a.call && b.CommitStep <= a.ret {
+							if !a.hasObs || !bytes.Equal(a.obs, o.Old) {
+								x.Fail("C14|update-not-conditioned-on-observed-record|"+c.engine, "thread %s had read the lock record %s, but its update that took effect was conditioned on %s", b.Thread, a.obs, o.Old)
+							}
+						}
 					}
 				}
 				cur = o.Val
